@@ -313,3 +313,5 @@ def run(ctx):
     tables.stream_id_predicates(r9, ctx.facts)
     from .. import boundaries as _b
     _b.check_predicates(ctx, 'C04.RP', 'C04')
+    from .. import boundaries as _b
+    _b.check_counts(ctx, 'C04.RQ', 'C04')
